@@ -279,3 +279,173 @@ Proof.
   cbn [encode_meta_key N.eqb]. change (kv_type =? kv_type) with true. cbv iota.
   unfold encode_kv_key. cbn [app]. rewrite app_comm_cons, incr_last_app. reflexivity.
 Qed.
+
+(* ---------- (7) the data ranges of a whole-table delete: rockredis.go getTableDataRange(dt, table, nil, nil) ---------- *)
+
+(* a range from "table prefix ++ m" to the table end: the keys with that table prefix whose rest is >= m *)
+Lemma in_range_sep_low c m s : in_range (c :: m) [c + 1] s = true <-> exists r, s = c :: r /\ bytes_leb m r = true.
+Proof.
+  unfold in_range, bytes_leb, bytes_ltb. split.
+  - destruct s as [|y r]; cbn [bytes_cmp]; [discriminate|].
+    intros H. apply andb_true_iff in H as [H1 H2].
+    destruct (N.compare_spec c y) as [->|Hc|Hc]; [exists r; split; [reflexivity|exact H1]| |discriminate].
+    destruct (N.compare_spec y (c + 1)) as [->|Hd|Hd]; [destruct r; discriminate|lia|discriminate].
+  - intros [r [-> H]]. cbn [bytes_cmp]. rewrite N.compare_refl. rewrite H.
+    destruct (N.compare_spec c (c + 1)); [lia|reflexivity|lia].
+Qed.
+
+Lemma table_low_range_iff dt t m k :
+  in_range (table_prefix dt t ++ m) (encode_data_table_end dt t) k = true <->
+  exists r, k = table_prefix dt t ++ r /\ bytes_leb m r = true.
+Proof.
+  destruct (table_end_spec dt t) as [q (Hs & He & _)]. unfold encode_data_table_start in Hs.
+  rewrite He, Hs, <- app_assoc. cbn [app]. rewrite in_range_iff. split.
+  - intros [s [-> H]]. apply in_range_sep_low in H as [r [-> H]]. exists r. rewrite <- app_assoc. auto.
+  - intros [r [-> H]]. exists (table_start_sep :: r). rewrite <- app_assoc. split; [reflexivity|].
+    apply in_range_sep_low. eauto.
+Qed.
+
+Lemma be16_zero_lt k a b : len16 k -> k <> [] -> bytes_cmp (be16 0 ++ a) (be16 (length k) ++ b) = Lt.
+Proof.
+  intros Hk Hne. rewrite (be16_spec (length k)) by assumption. change (be16 0) with [0; 0]. cbn [app bytes_cmp].
+  assert (Hl : 0 < N.of_nat (length k)) by (destruct k; [congruence|simpl; lia]).
+  unfold len16 in Hk. pose proof (N.div_mod (N.of_nat (length k)) 256).
+  destruct (N.compare_spec 0 (N.of_nat (length k) / 256)) as [E|E|E]; [|reflexivity|lia].
+  destruct (N.compare_spec 0 (N.of_nat (length k) mod 256)) as [E2|E2|E2]; [lia|reflexivity|lia].
+Qed.
+
+Definition in_ranges (rs : list (bytes * bytes)) (k : bytes) : bool :=
+  existsb (fun r => in_range (fst r) (snd r) k) rs.
+
+Definition ekey_key_nonempty (x : ekey) : Prop :=
+  match x with
+  | KList _ k _ => k <> []
+  | _ => True
+  end.
+
+Lemma whole_table_kv t x : no_sep t -> wf_ekey x ->
+  exists rs, get_table_data_range kv_type t [] None = Ok rs /\
+    (in_ranges rs (encode_ekey x) = true <-> ekey_type x = kv_type /\ ekey_table x = t).
+Proof.
+  intros Ht Hx. eexists. split; [reflexivity|]. unfold in_ranges. cbn [existsb fst snd]. rewrite orb_false_r.
+  change (encode_kv_key (pack_redis_key t [])) with (kv_type :: t ++ [table_start_sep]).
+  change (kv_type :: t ++ [table_start_sep]) with (encode_data_table_start kv_type t).
+  now apply table_range_iff.
+Qed.
+
+Lemma whole_table_coll_one dt t x : is_coll_type dt = true -> no_sep t -> wf_ekey x ->
+  in_range (coll_key dt t [] []) (encode_data_table_end dt t) (encode_ekey x) = true <->
+  ekey_type x = dt /\ ekey_table x = t.
+Proof.
+  intros Hdt Ht Hx. unfold coll_key. rewrite table_low_range_iff.
+  assert (Htt : is_table_type dt = true) by (apply is_coll_type_cases in Hdt; destruct Hdt as [->|[->| ->]]; reflexivity).
+  split.
+  - intros [r [E _]]. apply encode_with_table_prefix in E; tauto.
+  - intros [Hty Htab]. destruct (wf_type_coll x dt Hx Hdt Hty) as (t' & k & s & ->).
+    cbn [ekey_table] in Htab. subst t'. cbn [wf_ekey] in Hx. destruct Hx as (_ & _ & Hk).
+    eexists. split; [reflexivity|]. apply bytes_leb_cmp.
+    destruct k as [|k0 k].
+    + cbn [length app]. change (be16 0) with [0; 0]. cbn [app bytes_cmp]. rewrite !N.compare_refl.
+      destruct s; discriminate.
+    + rewrite be16_zero_lt by (assumption || discriminate). discriminate.
+Qed.
+
+Lemma whole_table_list_one t x : no_sep t -> wf_ekey x -> ekey_key_nonempty x ->
+  in_range (l_encode_list_key t [] list_min_seq) (encode_data_table_end list_type t) (encode_ekey x) = true <->
+  ekey_type x = list_type /\ ekey_table x = t.
+Proof.
+  intros Ht Hx Hne. unfold l_encode_list_key. rewrite table_low_range_iff.
+  split.
+  - intros [r [E _]]. apply encode_with_table_prefix in E; [tauto|assumption|reflexivity|assumption].
+  - intros [Hty Htab]. destruct (wf_type_list x Hx Hty) as (t' & k & s & ->).
+    cbn [ekey_table] in Htab. subst t'. cbn [wf_ekey ekey_key_nonempty] in *. destruct Hx as (_ & Hk & _).
+    eexists. split; [reflexivity|]. apply bytes_leb_cmp. cbn [length app].
+    rewrite be16_zero_lt by assumption. discriminate.
+Qed.
+
+Lemma whole_table_zscore_one t x : no_sep t -> wf_ekey x ->
+  in_range (z_encode_start_key t []) (encode_data_table_end zscore_type t) (encode_ekey x) = true <->
+  ekey_type x = zscore_type /\ ekey_table x = t.
+Proof.
+  intros Ht Hx.
+  change (z_encode_start_key t []) with (table_prefix zscore_type t ++
+    encode_vals [MBytes []; MInt 57; MFloat 0; MInt 58; MBytes []]).
+  rewrite table_low_range_iff. split.
+  - intros [r [E _]]. apply encode_with_table_prefix in E; [tauto|assumption|reflexivity|assumption].
+  - intros [Hty Htab]. destruct (wf_type_zscore x Hx Hty) as (t' & k & sc & m & ->).
+    cbn [ekey_table] in Htab. subst t'. cbn [wf_ekey] in Hx. destruct Hx as [_ Fs].
+    eexists. split; [reflexivity|]. apply bytes_leb_cmp.
+    cbn [ekey_rest]. change (Z.of_N zset_key_sep) with 58%Z. change (Z.of_N zset_score_sep) with 58%Z.
+    rewrite encode_vals_cmp; try (pose proof float_ok_0; mvals_ok).
+    cbn [tuple_cmp mval_cmp]. destruct k; cbn; discriminate.
+Qed.
+
+(* MAIN: the engine ranges deleted by DeleteTableRange(table) for one data type hold exactly the keys of
+   that type (for zset: member keys and score-index keys) and table *)
+Theorem whole_table_data_range dt t x :
+  dt = kv_type \/ dt = hash_type \/ dt = set_type \/ dt = zset_type \/ dt = list_type ->
+  no_sep t -> wf_ekey x -> ekey_key_nonempty x ->
+  exists rs, get_table_data_range dt t [] None = Ok rs /\
+    (in_ranges rs (encode_ekey x) = true <->
+     (ekey_type x = dt \/ (dt = zset_type /\ ekey_type x = zscore_type)) /\ ekey_table x = t).
+Proof.
+  intros Hdt Ht Hx Hne. destruct Hdt as [->|[->|[->|[->| ->]]]].
+  - destruct (whole_table_kv t x Ht Hx) as [rs [E H]]. exists rs. split; [exact E|].
+    rewrite H. split; [tauto|]. intros [[H1|[H1 _]] H2]; [tauto|discriminate H1].
+  - eexists. split; [reflexivity|]. unfold in_ranges. cbn [existsb fst snd]. rewrite orb_false_r.
+    rewrite (whole_table_coll_one hash_type t x eq_refl Ht Hx).
+    split; [tauto|]. intros [[H1|[H1 _]] H2]; [tauto|discriminate H1].
+  - eexists. split; [reflexivity|]. unfold in_ranges. cbn [existsb fst snd]. rewrite orb_false_r.
+    rewrite (whole_table_coll_one set_type t x eq_refl Ht Hx).
+    split; [tauto|]. intros [[H1|[H1 _]] H2]; [tauto|discriminate H1].
+  - eexists. split; [reflexivity|]. unfold in_ranges. cbn [existsb fst snd]. rewrite orb_false_r.
+    rewrite orb_true_iff.
+    rewrite (whole_table_coll_one zset_type t x eq_refl Ht Hx), (whole_table_zscore_one t x Ht Hx). tauto.
+  - eexists. split; [reflexivity|]. unfold in_ranges. cbn [existsb fst snd]. rewrite orb_false_r.
+    rewrite (whole_table_list_one t x Ht Hx Hne).
+    split; [tauto|]. intros [[H1|[H1 _]] H2]; [tauto|discriminate H1].
+Qed.
+
+Lemma table_meta_range_whole ty t x : is_meta_type ty = true -> no_sep t -> wf_ekey x ->
+  exists lo hi, get_table_meta_range ty t [] None = Ok (lo, hi) /\
+     (in_range lo hi (encode_ekey x) = true <-> exists rk, x = KMeta ty t rk).
+Proof.
+  intros Hty Ht Hx. eexists _, _. split; [now apply get_table_meta_range_whole|].
+  now apply meta_table_range_iff.
+Qed.
+
+(* ---------- the guards are necessary: collisions without them ---------- *)
+
+(* KV keys carry no length prefix: a table name containing ':' would collide *)
+Lemma kv_without_table_guard_collides :
+  let x := KKV [97] [98; 58; 99] in let y := KKV [97; 58; 98] [99] in
+  x <> y /\ encode_ekey x = encode_ekey y /\ wf_ekey x /\ ~ wf_ekey y.
+Proof.
+  cbv zeta. repeat split; try discriminate.
+  - cbn. unfold no_sep. intros [H|[]]. discriminate.
+  - cbn. unfold no_sep. intros H. apply H. right. left. reflexivity.
+Qed.
+
+(* the u16 key-length field wraps at 65536: a 65536-byte collection key would collide with the empty key *)
+Lemma coll_without_len_guard_collides_gen k1 : N.of_nat (length k1) = 65535 ->
+  let x := KColl 22 [116] (58 :: k1) [102] in let y := KColl 22 [116] [] (k1 ++ [58; 102]) in
+  x <> y /\ encode_ekey x = encode_ekey y /\ wf_ekey y /\ ~ wf_ekey x.
+Proof.
+  intros Hl. cbv zeta. split.
+  { intros H. apply (f_equal (fun e => match e with KColl _ _ [] _ => true | _ => false end)) in H. discriminate H. }
+  split.
+  { cbn [encode_ekey]. unfold coll_key. f_equal. 
+    assert (E : be16 (length (58 :: k1)) = be16 (length (@nil N))).
+    { unfold be16, u16_of_len. f_equal. cbn [length]. rewrite Nat2N.inj_succ, Hl. reflexivity. }
+    rewrite E. reflexivity. }
+  split.
+  - cbn [wf_ekey]. split; [reflexivity|]. split; [unfold no_sep; intros [H|[]]; discriminate|]. unfold len16. cbn [length]. lia.
+  - cbn [wf_ekey]. intros (_ & _ & H). unfold len16 in H. cbn [length] in H. lia.
+Qed.
+
+Lemma coll_without_len_guard_collides : exists x y,
+  x <> y /\ encode_ekey x = encode_ekey y /\ wf_ekey y /\ ~ wf_ekey x.
+Proof.
+  eexists _, _. apply (coll_without_len_guard_collides_gen (repeat 97 (N.to_nat 65535))).
+  rewrite repeat_length. lia.
+Qed.
